@@ -30,10 +30,10 @@ PKG = "yv-c04"
 # name -> (Gen_Fnmatch cfg, Gen_FnmatchFind cfg)
 ENUM = {
     "quick": [("q_full", "full3"), ("q_wide", "wide2"), ("q_bracket", "full3"), ("q_quoted", "full3"), ("q_coll", "full3"),
-              ("q_class", "class3"), ("q_setops", "set3"), ("q_regex", "regex2")],
+              ("q_class", "class3"), ("q_setops", "set3"), ("q_regex", "regex2"), ("q_punct", "punct2")],
     "thorough": [("t_full", "full3"), ("t_bracket", "full3"), ("t_quoted", "full3"), ("t_coll", "full3"),
                  ("t_class", "class3"), ("t_long", "full4"), ("t_wide", "wide3"), ("q_quoted", "full3"), ("q_coll", "full3"),
-                 ("t_setops", "set3"), ("t_regex", "regex2")],
+                 ("t_setops", "set3"), ("t_regex", "regex2"), ("t_punct", "punct2")],
 }
 SHELL = {"quick": "q_shell", "thorough": "t_shell"}
 RANDOM = {"quick": 40000, "thorough": 400000}
@@ -256,8 +256,8 @@ def _shell(wd, tier, rep, acc, lock, workers):
 
     t0 = time.time()
     vlib.build_harness(PKG)
-    tot = {"patterns": 0, "cases": 0, "skipped_unspecified": 0, "shell_runs": 0, "via_var": 0, "via_direct": 0,
-           "mismatches": 0}
+    tot = {"patterns": 0, "cases": 0, "skipped_unspecified": 0, "open_patterns_case_only": 0, "shell_runs": 0,
+           "via_var": 0, "via_direct": 0, "mismatches": 0}
     by_line = {}
     for x in body:
         d = json.loads(x)
@@ -293,7 +293,8 @@ def _shell(wd, tier, rep, acc, lock, workers):
                                                                  json.loads(body[len(body) // 2])["l"]),
                                           "rows": json.loads(body[len(body) // 2])["sh"][:3]}})
     vlib.log(f"[p4c] {tot['patterns']} patterns, {tot['cases']} (pattern, string) cases through the whole shell "
-             f"(4 trims + case each; {tot['via_var']} via $p, {tot['via_direct']} written directly) in "
+             f"(4 trims + case each; {tot['open_patterns_case_only']} patterns left open by POSIX: case only; "
+             f"{tot['via_var']} via $p, {tot['via_direct']} written directly) in "
              f"{time.time() - t0:.1f}s, {tot['mismatches']} disagree")
 
 
